@@ -50,6 +50,10 @@ type DefOp struct {
 	N    int     `json:"n,omitempty"` // fn id / mode / umode
 	L    []string `json:"l,omitempty"`
 	Var  bool    `json:"var,omitempty"` // use the *Var form with a pre-seeded variable
+	// initial contents of the variable handed to StringSliceVar / IntSliceVar / StringMapVar (with Var)
+	InitSS []string    `json:"initss,omitempty"`
+	InitIS []int       `json:"initis,omitempty"`
+	InitM  [][2]string `json:"initm,omitempty"`
 }
 
 type EnvKV struct {
@@ -154,12 +158,29 @@ func (op DefOp) line() string {
 			ds = hx(fmt.Sprintf("%f", op.DefF))
 		case KStrs:
 			d = "ss"
+			if len(op.InitSS) > 0 {
+				d = "ss" + hxList(op.InitSS)
+			}
 		case KInts:
 			d = "is"
+			if len(op.InitIS) > 0 {
+				parts := make([]string, len(op.InitIS))
+				for i, v := range op.InitIS {
+					parts[i] = strconv.Itoa(v)
+				}
+				d = "is" + strings.Join(parts, ",")
+			}
 		case KFlts:
 			d = "fs"
 		case KMap:
 			d = "m"
+			if len(op.InitM) > 0 {
+				parts := make([]string, len(op.InitM))
+				for i, kv := range op.InitM {
+					parts[i] = hx(kv[0]) + "=" + hx(kv[1])
+				}
+				d = "m" + strings.Join(parts, ",")
+			}
 		}
 		return fmt.Sprintf("opt %d %s %s %s %s %d %d%s", op.H, kindNames[op.Kind], hx(op.Name), d, ds, op.Min, op.Max, mods)
 	case "cmd":
